@@ -223,6 +223,7 @@ inductive Arg where
   | num (x : FV)
   | obj (x : FV)          -- valueOf logs its index, returns x
   | thrower               -- valueOf logs its index, throws
+  | mut (x : FV) (m : FV) -- valueOf logs its index, calls setTime(m) on the same Date object, returns x
 deriving DecidableEq, Repr
 
 inductive Outcome where
@@ -240,16 +241,36 @@ def convAll (as : List Arg) (i : Nat) : List Nat × Option (List FV) :=
   | .obj x :: rest => match convAll rest (i + 1) with
     | (l, some vs) => (i :: l, some (x :: vs))
     | (l, none) => (i :: l, none)
+  | .mut x _ :: rest => match convAll rest (i + 1) with
+    | (l, some vs) => (i :: l, some (x :: vs))
+    | (l, none) => (i :: l, none)
   | .thrower :: _ => ([i], none)
+
+/-- the argument of the last re-entrant setTime executed during the conversions -/
+def lastMut : List Arg → Option FV
+  | [] => none
+  | .thrower :: _ => none
+  | .mut _ m :: rest => (lastMut rest).orElse (fun _ => some m)
+  | _ :: rest => lastMut rest
 
 def Setter.arity : Setter → Nat
   | .ms => 1 | .sec => 2 | .min => 3 | .hour => 4 | .date => 1 | .month => 2 | .year => 3 | .time => 1
 
-/-- a setter call with scripted arguments: (new time value, outcome, log).  An exception leaves the
-    time value unchanged. -/
+/-- the time value of the object after the re-entrant setTime calls -/
+def curAfter (tv : TV) (as : List Arg) : TV :=
+  match lastMut as with
+  | none => tv
+  | some m => clipNumber m
+
+/-- a setter call with scripted arguments: (new time value, outcome, log).  Step 1 of §15.9.5.27–.41, "let t be
+    this time value", comes before the conversions: a valueOf that re-enters setTime on the same object changes
+    the object (`cur`) but not t; the final step stores the result computed from t.  An exception leaves whatever
+    the re-entrant calls stored. -/
 def setUTCS (k : Setter) (tv : TV) (args : List Arg) : TV × Outcome × List Nat :=
-  match convAll (args.take k.arity) 0 with
-  | (l, none) => (tv, .threw, l)
+  let as := args.take k.arity
+  let cur := curAfter tv as
+  match convAll as 0 with
+  | (l, none) => (cur, .threw, l)
   | (l, some vs) => let tv' := setUTC k tv vs; (tv', .ret tv', l)
 
 def runSettersS (tv : TV) : List (Setter × List Arg) → TV × List (Outcome × List Nat)
@@ -341,6 +362,21 @@ def runLocalSetters (z : Zone) (tv : TV) : List (LSetter × List FV) → TV × L
     let tv' := setLocal z k tv a
     let (fin, rs) := runLocalSetters z tv' rest
     (fin, tv' :: rs)
+
+/-- a local setter call with scripted arguments -/
+def setLocalS (z : Zone) (k : LSetter) (tv : TV) (args : List Arg) : TV × Outcome × List Nat :=
+  let as := args.take k.arity
+  let cur := curAfter tv as
+  match convAll as 0 with
+  | (l, none) => (cur, .threw, l)
+  | (l, some vs) => let tv' := setLocal z k tv vs; (tv', .ret tv', l)
+
+def runLocalSettersS (z : Zone) (tv : TV) : List (LSetter × List Arg) → TV × List (Outcome × List Nat)
+  | [] => (tv, [])
+  | (k, a) :: rest =>
+    let (tv', o, l) := setLocalS z k tv a
+    let (fin, rs) := runLocalSettersS z tv' rest
+    (fin, (o, l) :: rs)
 
 /-- §15.9.3.1 new Date(year, month [, date [, hours [, minutes [, seconds [, ms]]]]]): TimeClip(UTC(MakeDate(…))) -/
 def dateLocal (z : Zone) (args : List FV) : TV := ((dateUTCRaw args).map (UTC z)).bind TimeClip
